@@ -674,14 +674,14 @@ package keeper
 //@ func (e erc20CustomPrecompiledContractRoName) Execute(caller corevm.ContractRef, contractAddr common.Address, input []byte, env cpcExecutorEnv) (ret []byte, err error)
 //@   requires e.contract != nil
 //@   modifies nothing
-//@   ensures[C10.view_name] err == nil ==> bytes(ret) == abiEncString(e.contract.metadata.Name)
+//@   ensures[C10.view_name,C12.ro_name_writes_nothing] err == nil ==> bytes(ret) == abiEncString(e.contract.metadata.Name)
 //@   panics[C10.view_name_panics] only_if len(input) < 4 || !abiSelectorOk("name", bytes(input))
 
 //@ func (e erc20CustomPrecompiledContractRoSymbol) Execute(caller corevm.ContractRef, contractAddr common.Address, input []byte, env cpcExecutorEnv) (ret []byte, err error)
 //@   requires e.contract != nil
 //@   requires (e.contract.cacheErc20Metadata != nil ==> (e.contract.cacheErc20Metadata.MinDenom == erc20Denom(e.contract.metadata.TypedMeta) && e.contract.cacheErc20Metadata.Symbol == jsonErc20Symbol(strBytes(e.contract.metadata.TypedMeta)) && e.contract.cacheErc20Metadata.Decimals == jsonErc20Decimals(strBytes(e.contract.metadata.TypedMeta))))
 //@   modifies e.contract.cacheErc20Metadata
-//@   ensures[C10.view_symbol] err == nil ==> bytes(ret) == abiEncString(jsonErc20Symbol(strBytes(e.contract.metadata.TypedMeta)))
+//@   ensures[C10.view_symbol,C12.ro_symbol_writes_nothing] err == nil ==> bytes(ret) == abiEncString(jsonErc20Symbol(strBytes(e.contract.metadata.TypedMeta)))
 //@   ensures e.contract.cacheErc20Metadata != nil ==> (e.contract.cacheErc20Metadata.MinDenom == erc20Denom(e.contract.metadata.TypedMeta) && e.contract.cacheErc20Metadata.Symbol == jsonErc20Symbol(strBytes(e.contract.metadata.TypedMeta)) && e.contract.cacheErc20Metadata.Decimals == jsonErc20Decimals(strBytes(e.contract.metadata.TypedMeta)))
 //@   panics[C10.view_symbol_panics] only_if len(input) < 4 || !abiSelectorOk("symbol", bytes(input)) || !jsonErc20Ok(strBytes(e.contract.metadata.TypedMeta))
 
@@ -689,7 +689,7 @@ package keeper
 //@   requires e.contract != nil
 //@   requires (e.contract.cacheErc20Metadata != nil ==> (e.contract.cacheErc20Metadata.MinDenom == erc20Denom(e.contract.metadata.TypedMeta) && e.contract.cacheErc20Metadata.Symbol == jsonErc20Symbol(strBytes(e.contract.metadata.TypedMeta)) && e.contract.cacheErc20Metadata.Decimals == jsonErc20Decimals(strBytes(e.contract.metadata.TypedMeta))))
 //@   modifies e.contract.cacheErc20Metadata
-//@   ensures[C10.view_decimals] err == nil ==> bytes(ret) == abiEncUint(jsonErc20Decimals(strBytes(e.contract.metadata.TypedMeta)))
+//@   ensures[C10.view_decimals,C12.ro_decimals_writes_nothing] err == nil ==> bytes(ret) == abiEncUint(jsonErc20Decimals(strBytes(e.contract.metadata.TypedMeta)))
 //@   ensures e.contract.cacheErc20Metadata != nil ==> (e.contract.cacheErc20Metadata.MinDenom == erc20Denom(e.contract.metadata.TypedMeta) && e.contract.cacheErc20Metadata.Symbol == jsonErc20Symbol(strBytes(e.contract.metadata.TypedMeta)) && e.contract.cacheErc20Metadata.Decimals == jsonErc20Decimals(strBytes(e.contract.metadata.TypedMeta)))
 //@   panics[C10.view_decimals_panics] only_if len(input) < 4 || !abiSelectorOk("decimals", bytes(input)) || !jsonErc20Ok(strBytes(e.contract.metadata.TypedMeta))
 
@@ -697,7 +697,7 @@ package keeper
 //@   requires e.contract != nil && e.contract.keeper.bankKeeper != nil
 //@   requires (e.contract.cacheErc20Metadata != nil ==> (e.contract.cacheErc20Metadata.MinDenom == erc20Denom(e.contract.metadata.TypedMeta) && e.contract.cacheErc20Metadata.Symbol == jsonErc20Symbol(strBytes(e.contract.metadata.TypedMeta)) && e.contract.cacheErc20Metadata.Decimals == jsonErc20Decimals(strBytes(e.contract.metadata.TypedMeta))))
 //@   modifies e.contract.cacheErc20Metadata
-//@   ensures[C10.view_totalSupply] err == nil ==> bytes(ret) == abiEncUint(bankSupply[layer(env.ctx)][erc20Denom(e.contract.metadata.TypedMeta)])
+//@   ensures[C10.view_totalSupply,C12.ro_totalSupply_writes_nothing] err == nil ==> bytes(ret) == abiEncUint(bankSupply[layer(env.ctx)][erc20Denom(e.contract.metadata.TypedMeta)])
 //@   ensures e.contract.cacheErc20Metadata != nil ==> (e.contract.cacheErc20Metadata.MinDenom == erc20Denom(e.contract.metadata.TypedMeta) && e.contract.cacheErc20Metadata.Symbol == jsonErc20Symbol(strBytes(e.contract.metadata.TypedMeta)) && e.contract.cacheErc20Metadata.Decimals == jsonErc20Decimals(strBytes(e.contract.metadata.TypedMeta)))
 //@   panics[C10.view_totalSupply_panics] only_if len(input) < 4 || !abiSelectorOk("totalSupply", bytes(input)) || !jsonErc20Ok(strBytes(e.contract.metadata.TypedMeta))
 
@@ -705,13 +705,13 @@ package keeper
 //@   requires e.contract != nil && e.contract.keeper.bankKeeper != nil
 //@   requires (e.contract.cacheErc20Metadata != nil ==> (e.contract.cacheErc20Metadata.MinDenom == erc20Denom(e.contract.metadata.TypedMeta) && e.contract.cacheErc20Metadata.Symbol == jsonErc20Symbol(strBytes(e.contract.metadata.TypedMeta)) && e.contract.cacheErc20Metadata.Decimals == jsonErc20Decimals(strBytes(e.contract.metadata.TypedMeta))))
 //@   modifies e.contract.cacheErc20Metadata
-//@   ensures[C10.view_balanceOf] err == nil ==> bytes(ret) == abiEncUint(bankBal[layer(env.ctx)][addrBytes(abiArgAddr(bytes(input), 0))][erc20Denom(e.contract.metadata.TypedMeta)])
+//@   ensures[C10.view_balanceOf,C12.ro_balanceOf_writes_nothing] err == nil ==> bytes(ret) == abiEncUint(bankBal[layer(env.ctx)][addrBytes(abiArgAddr(bytes(input), 0))][erc20Denom(e.contract.metadata.TypedMeta)])
 //@   ensures e.contract.cacheErc20Metadata != nil ==> (e.contract.cacheErc20Metadata.MinDenom == erc20Denom(e.contract.metadata.TypedMeta) && e.contract.cacheErc20Metadata.Symbol == jsonErc20Symbol(strBytes(e.contract.metadata.TypedMeta)) && e.contract.cacheErc20Metadata.Decimals == jsonErc20Decimals(strBytes(e.contract.metadata.TypedMeta)))
 //@   panics[C10.view_balanceOf_panics] only_if len(input) < 4 || !abiSelectorOk("balanceOf", bytes(input)) || !jsonErc20Ok(strBytes(e.contract.metadata.TypedMeta))
 
 //@ func (e erc20CustomPrecompiledContractRoAllowance) Execute(caller corevm.ContractRef, contractAddr common.Address, input []byte, env cpcExecutorEnv) (ret []byte, err error)
 //@   requires e.contract != nil && e.contract.keeper.storeKey != nil
 //@   modifies nothing
-//@   ensures[C10.view_allowance] err == nil ==> bytes(ret) == abiEncUint(cpcAllow(kvHas[kvId(layer(env.ctx), payload(e.contract.keeper.storeKey))], kvVal[kvId(layer(env.ctx), payload(e.contract.keeper.storeKey))], abiArgAddr(bytes(input), 0), abiArgAddr(bytes(input), 1)))
+//@   ensures[C10.view_allowance,C12.ro_allowance_writes_nothing] err == nil ==> bytes(ret) == abiEncUint(cpcAllow(kvHas[kvId(layer(env.ctx), payload(e.contract.keeper.storeKey))], kvVal[kvId(layer(env.ctx), payload(e.contract.keeper.storeKey))], abiArgAddr(bytes(input), 0), abiArgAddr(bytes(input), 1)))
 //@   panics[C10.view_allowance_panics] only_if len(input) < 4 || !abiSelectorOk("allowance", bytes(input))
 
